@@ -5,6 +5,8 @@ package cluster
 import (
 	"encoding/json"
 	"fmt"
+	"os"
+	"strings"
 	"sync"
 	"sync/atomic"
 	"testing"
@@ -79,6 +81,13 @@ func c18Secondary(i int, clusterName string, primaryListenPeerURLs []string) *cl
 }
 
 func c18Start(t *testing.T) *c18Env {
+	// keep etcd's WAL fsyncs off a possibly busy disk: the short time-outs of the hold phases
+	// must only ever expire while waiting for the lock, never inside the Txn that puts the key
+	if st, err := os.Stat("/dev/shm"); err == nil && st.IsDir() {
+		if d, err := os.MkdirTemp("/dev/shm", "c18-"); err == nil {
+			tempDir = d
+		}
+	}
 	opts, _, _ := mockMembers(1)
 	cls, err := New(opts[0])
 	if err != nil {
@@ -98,6 +107,9 @@ func c18Start(t *testing.T) *c18Env {
 func (e *c18Env) close() {
 	for i := len(e.members) - 1; i >= 0; i-- {
 		closeClusters([]*cluster{e.members[i]})
+	}
+	if strings.HasPrefix(tempDir, "/dev/shm/c18-") {
+		os.RemoveAll(tempDir)
 	}
 }
 
@@ -311,7 +323,7 @@ func c18GenFree(r *vfRand, members int, sepHandles bool) c18Phase {
 // a holder on one member, one short-timeout contender on each of some other members,
 // optionally an ample-timeout contender sharing the holder's handle
 func c18GenHold(r *vfRand, members int) c18Phase {
-	to := r.PickInt(250, 300, 400)
+	to := r.PickInt(400, 500, 600)
 	ph := c18Phase{Kind: "hold", MaxHoldMs: to + 400}
 	hm := r.Intn(members)
 	ph.Gs = append(ph.Gs, c18G{M: hm, Its: [][2]int{{0, r.Intn(500)}}})
